@@ -282,6 +282,17 @@ impl<T> RcInner<T> {
 impl<T: RcObject> RcInner<T> {
     #[inline]
     pub(crate) unsafe fn decrement_strong(ptr: *mut Self, count: u32, guard: Option<&Guard>) {
+        // The epoch must be read inside a critical section: a pinned thread lags behind the
+        // global epoch by at most one, whereas an unpinned thread preempted after the read could
+        // overwrite a newer stamp with an arbitrarily old one.
+        let local_guard;
+        let guard = match guard {
+            Some(guard) => guard,
+            None => {
+                local_guard = cs();
+                &local_guard
+            }
+        };
         let epoch = global_epoch();
         // Should mark the current epoch on the strong count with CAS.
         let hit_zero = loop {
@@ -303,19 +314,11 @@ impl<T: RcObject> RcInner<T> {
             }
         };
 
-        let trigger_recl = |guard: &Guard| {
-            if hit_zero {
-                guard.defer_with_inner(ptr, |inner| Self::try_destruct(inner));
-            }
-            // Periodically triggers a collection.
-            guard.incr_manual_collection();
-        };
-
-        if let Some(guard) = guard {
-            trigger_recl(guard)
-        } else {
-            trigger_recl(&cs())
+        if hit_zero {
+            guard.defer_with_inner(ptr, |inner| Self::try_destruct(inner));
         }
+        // Periodically triggers a collection.
+        guard.incr_manual_collection();
     }
 
     #[inline]
